@@ -212,6 +212,11 @@ func specialisedRows(tier string, rng *rand.Rand) ([]*parseRow, map[string]inter
 		}
 		add(fmt.Sprintf("di28#subset%d", v), renderDI(defs, drop, rng.Intn(len(defs))))
 	}
+	// non-canonical spellings of the same IDs (an ID is its decimal value): definitions with a leading
+	// zero (!00, !08, !010, !019 ...), references with two, and both
+	for _, sp := range [][2]string{{"0", ""}, {"", "00"}, {"00", "0"}} {
+		add(fmt.Sprintf("di28#spelled-defs=%q-refs=%q", sp[0], sp[1]), respell(renderDI(defs, nil, 5), sp[0], sp[1]))
+	}
 	rows = append(rows, positionRows(defs)...)
 	// hand-written texts with less usual field shapes (references through generic fields,
 	// self-referencing composite, inline specialised nodes inside fields, nested inline tuples)
@@ -481,4 +486,14 @@ func positionRows(defs []diDef) []*parseRow {
 		rows = append(rows, &parseRow{Src: "text", Want: w, text: text, name: k + "@every-position#"})
 	}
 	return rows
+}
+
+var reDefID = regexp.MustCompile(`(?m)^!(\d+) = `)
+var reRefID = regexp.MustCompile(`([ ({,])!(\d+)`)
+
+// respell writes the numeric metadata IDs of a text with leading zeros: zd in
+// front of the IDs of definitions, zr in front of the IDs of references.
+func respell(text, zd, zr string) string {
+	text = reRefID.ReplaceAllString(text, "${1}!"+zr+"${2}")
+	return reDefID.ReplaceAllString(text, "!"+zd+"${1} = ")
 }
